@@ -63,22 +63,41 @@ func (c19) ID() string    { return "C19" }
 func (c19) RunFn() string { return "run_C19" }
 func (c19) Workers() int  { return 8 }
 func (c19) Rule() string {
-	return "random (base, factor, cap) in [1, 2^40] (small values, powers of two, values at and just below 2^40, zero = default), with and without jitter, through durationForAttempt(n) (n = 0..70, around the attempt where base*factor^n passes the cap, around the attempts where factor^n and base*factor^n overflow float64, 2^31-1 / 2^31 / 2^31+1, random up to 2^31, 2^53, 2^62, MaxInt64), duration() sequences (up to 70 calls, a few past the float64 overflow point) and duration() sequences after k calls and reset(); cap below / equal to the base and cap = base*factor^k-1, +0, +1 (with attempt 0, factor 1 and the attempts around k) through both APIs; StreamManager scenarios (real Client + StreamManager on the scripted TCP server: session, drop, 5-8 transient negotiation failures, success, second drop, 2-3 failures, success, Stop): the wait after the n-th failed attempt of EVERY outage, measured on the server between the end of that attempt and the next accept, is at most 20*2^n ms + 500 ms slack, i.e. the sequence restarts after a successful reconnection (Coq: C19_outages_restart / C19_formula_seq_after_reset give the bounds the model returns for the observed attempt counts; C19_jitter_range makes the no-jitter value the bound); a malformed stream with negative caps (rand.Intn panic) and a few fixed caps above the stated bound (D22); distinct = distinct (mode, jitter, bit lengths of base/factor/cap, class of n relative to the cap crossing / float overflow); non-trivial = positive parameters within the bound, factor >= 2, base < cap and at least one observed attempt number >= 1"
+	return "random (base, factor, cap) in [1, 2^40] (small values, powers of two, values at and just below 2^40, zero = default; the defaults are read from the live code through VerifBackoffDefaults, only 'at most three minutes when the cap is left unset' is a literal of the property), with and without jitter, through durationForAttempt(n) (n = 0..70, around the attempt where base*factor^n passes the cap, around the attempts where factor^n and base*factor^n overflow float64, 2^31-1 / 2^31 / 2^31+1, random up to 2^31, 2^53, 2^62, MaxInt64), duration() sequences (up to 70 calls, a few past the float64 overflow point) and duration() sequences after k calls and reset(); cap below / equal to the base and cap = base*factor^k-1, +0, +1 (with attempt 0, factor 1 and the attempts around k) through both APIs; StreamManager scenarios (real Client + StreamManager on the scripted TCP server: session, drop, 5-8 transient negotiation failures, success, second drop, 2-3 failures, success, Stop): the wait after the n-th failed attempt of EVERY outage, measured on the server between the end of that attempt and the next accept, is at most default_base*default_factor^n ms + 500 ms slack (defaults read from the live code), i.e. the sequence restarts after a successful reconnection (Coq: C19_outages_restart / C19_formula_seq_after_reset give the bounds the model returns for the observed attempt counts; C19_jitter_range makes the no-jitter value the bound); a malformed stream with negative caps (rand.Intn panic) and a few fixed caps above the stated bound (D22); distinct = distinct (mode, jitter, bit lengths of base/factor/cap, class of n relative to the cap crossing / float overflow); non-trivial = positive parameters within the bound, factor >= 2, base < cap and at least one observed attempt number >= 1"
 }
 
 // ---- exact arithmetic shared by generator and oracle (math/big; no model) ----
 
-// eff applies the documented defaults (zero fields): 20 ms, factor 2, cap three minutes.
+// c19Eff applies the defaults to zero fields. The defaults are the live code's constants
+// (VerifBackoffDefaults, the same hook gen.go uses to write Generated.v): the property does
+// not fix them, it only requires every delay to stay within three minutes when the cap is
+// left unset (c19ThreeMinNs) -- and, like any parameter, they must be positive.
 func c19Eff(in *c19In) (base, factor, cp int) {
+	db, df, dc := xmpp.VerifBackoffDefaults()
 	base, factor, cp = in.Base, in.Factor, in.Cap
 	if base == 0 {
-		base = 20
+		base = db
 	}
 	if factor == 0 {
-		factor = 2
+		factor = df
 	}
 	if cp == 0 {
-		cp = 180000
+		cp = dc
+	}
+	return
+}
+
+const c19ThreeMinNs = 3 * 60 * 1000000000
+
+// c19GenParams: c19Eff made positive, for the generator's and the key's arithmetic only
+// (the loops below need positive numbers; a non-positive default is the oracle's business).
+func c19GenParams(in *c19In) (base, factor, cp int) {
+	base, factor, cp = c19Eff(in)
+	if base <= 0 {
+		base = 1
+	}
+	if factor <= 0 {
+		factor = 2
 	}
 	return
 }
@@ -243,7 +262,7 @@ func (c19) Gen(r *rand.Rand, tier string) []interface{} {
 	for _, nj := range []bool{true, false} {
 		add(c19In{Mode: 0, NoJitter: nj, N: 0})
 		add(c19In{Mode: 0, NoJitter: nj, N: 5})
-		add(c19In{Mode: 0, NoJitter: nj, N: 14}) // 20*2^14 = 327680 > 180000
+		add(c19In{Mode: 0, NoJitter: nj, N: 14}) // past the default cap with the usual defaults (20*2^14 ms > 3 min)
 		add(c19In{Mode: 0, NoJitter: nj, N: 1 << 31})
 		add(c19In{Mode: 1, NoJitter: nj, N: 20})
 		add(c19In{Mode: 2, NoJitter: nj, K: 17, N: 20})
@@ -306,7 +325,7 @@ func (c19) Gen(r *rand.Rand, tier string) []interface{} {
 		}
 		edgeK := -1
 		if in.Cap > 0 && r.Intn(5) == 0 { // cap placed relative to the base
-			eb0, ef0, _ := c19Eff(&in)
+			eb0, ef0, _ := c19GenParams(&in)
 			switch r.Intn(4) {
 			case 0: // below the base
 				in.Cap = 1 + r.Intn(eb0)
@@ -332,7 +351,7 @@ func (c19) Gen(r *rand.Rand, tier string) []interface{} {
 				in.Factor = 1
 			}
 		}
-		eb, ef, ec := c19Eff(&in)
+		eb, ef, ec := c19GenParams(&in)
 		switch m := r.Intn(10); {
 		case m < 5:
 			in.Mode = 0
@@ -470,8 +489,13 @@ func (c19) Oracle(inp interface{}, obs Sx) (string, string) {
 		return c19OracleSM(in)
 	}
 	base, factor, cp := c19Eff(in)
-	if base <= 0 || factor <= 0 || cp <= 0 {
+	if in.Base < 0 || in.Factor < 0 || in.Cap < 0 {
 		return "", "" // the property speaks about positive parameters only
+	}
+	if base <= 0 || factor <= 0 || cp <= 0 {
+		// only possible through a default: an unset field took a non-positive constant.
+		// Report what that does: a panic in rand.Intn, or delays that are not positive.
+		return c19OracleBadDefault(in, obs, base, factor, cp)
 	}
 	huge := base > c19Bound || factor > c19Bound || cp > c19Bound
 	mode := []string{"query", "seq", "reset"}[in.Mode]
@@ -527,6 +551,9 @@ func (c19) Oracle(inp interface{}, obs Sx) (string, string) {
 		if d.Cmp(capNs) > 0 {
 			return fmt.Sprintf("%s attempt %d: delay %d ns exceeds the cap %d ns", where, attempt, d, capNs), sig("above-cap")
 		}
+		if in.Cap == 0 && d.Cmp(big.NewInt(c19ThreeMinNs)) > 0 {
+			return fmt.Sprintf("%s attempt %d (cap left unset): delay %d ns exceeds three minutes", where, attempt, d), sig("above-three-minutes")
+		}
 		if in.NoJitter {
 			// equals min(cap, base*factor^n) ...
 			if d.Cmp(want) != 0 {
@@ -575,7 +602,7 @@ func (c19) Key(inp interface{}) (string, bool) {
 	if in.Mode != 0 {
 		top = in.N - 1
 	}
-	if cp > 0 {
+	if cp > 0 && base > 0 && factor > 0 {
 		cross := c19Cross(base, factor, cp)
 		ovf := c19FloatOvf(base, factor)
 		switch {
@@ -634,6 +661,13 @@ func (c19) Key(inp interface{}) (string, bool) {
 
 func c19RunSM(in *c19In) Sx {
 	in.smFails, in.smGaps, in.smErr = nil, nil, ""
+	db, df, dc := xmpp.VerifBackoffDefaults()
+	if db <= 0 || df <= 0 || dc <= 0 {
+		// the retry loop's rand.Intn would panic in the library's own goroutine and take the
+		// whole harness down; the all-unset jitter cases of modes 0-2 observe that panic
+		in.smErr = "skipped"
+		return L(SBytes("skipped"))
+	}
 	fail := func(why string) Sx {
 		in.smErr = why
 		return L(SBytes("incomplete"), SBytes(why))
@@ -815,7 +849,7 @@ func c19RunSM(in *c19In) Sx {
 	for o, gs := range gaps {
 		items := make([]Sx, len(gs))
 		for n, g := range gs {
-			bound := new(big.Int).Mul(c19Expect(20, 2, 180000, n), big.NewInt(c19Ms)).Int64()
+			bound := new(big.Int).Mul(c19Expect(db, df, dc, n), big.NewInt(c19Ms)).Int64()
 			if g >= 0 && g <= bound+c19SlackMs*c19Ms {
 				items[n] = L(Z(0), Z(bound))
 			} else {
@@ -828,6 +862,10 @@ func c19RunSM(in *c19In) Sx {
 }
 
 func c19OracleSM(in *c19In) (string, string) {
+	if in.smErr == "skipped" {
+		return "", ""
+	}
+	db, df, dc := xmpp.VerifBackoffDefaults()
 	if in.smErr != "" {
 		return "stream-manager scenario did not complete: " + in.smErr, "sm-scenario-incomplete"
 	}
@@ -837,7 +875,10 @@ func c19OracleSM(in *c19In) (string, string) {
 	slack := int64(c19SlackMs) * c19Ms
 	for o, gs := range in.smGaps {
 		for n, g := range gs {
-			bound := new(big.Int).Mul(c19Expect(20, 2, 180000, n), big.NewInt(c19Ms)).Int64()
+			bound := new(big.Int).Mul(c19Expect(db, df, dc, n), big.NewInt(c19Ms)).Int64()
+			if bound > c19ThreeMinNs {
+				bound = c19ThreeMinNs // cap left unset: three minutes at most
+			}
 			if g < 0 {
 				return fmt.Sprintf("outage %d: no connection attempt followed failed attempt %d", o+1, n), "sm-no-retry"
 			}
@@ -846,9 +887,38 @@ func c19OracleSM(in *c19In) (string, string) {
 				if o > 0 {
 					what = "the back-off did not restart at attempt 0 after the successful reconnection"
 				}
-				return fmt.Sprintf("stream manager, outages %v: in outage %d the wait after failed attempt %d (counted from 0) was %d ms; bound 20*2^%d = %d ms (+%d ms slack): %s",
-					in.Outages, o+1, n, g/c19Ms, n, bound/c19Ms, c19SlackMs, what), "sm-wait-above-bound"
+				return fmt.Sprintf("stream manager, outages %v: in outage %d the wait after failed attempt %d (counted from 0) was %d ms; bound min(3 min, %d*%d^%d) = %d ms (+%d ms slack): %s",
+					in.Outages, o+1, n, g/c19Ms, db, df, n, bound/c19Ms, c19SlackMs, what), "sm-wait-above-bound"
 			}
+		}
+	}
+	return "", ""
+}
+
+// c19OracleBadDefault: an unset field took a default that is not positive.
+func c19OracleBadDefault(in *c19In, obs Sx, base, factor, cp int) (string, string) {
+	mode := []string{"query", "seq", "reset"}[in.Mode]
+	where := fmt.Sprintf("%s nojitter=%v base=%d factor=%d cap=%d (unset fields took the defaults %d/%d/%d)", mode, in.NoJitter, in.Base, in.Factor, in.Cap, base, factor, cp)
+	calls := []Sx{obs}
+	if in.Mode != 0 {
+		calls = obs.L
+	}
+	for i, c := range calls {
+		attempt := i
+		if in.Mode == 0 {
+			attempt = in.N
+		}
+		if c.K != "l" || len(c.L) == 0 {
+			return "malformed observation", "shape"
+		}
+		if len(c.L) == 1 && c.L[0].K == "l" { // ((1)): a sequence that panicked
+			c = c.L[0]
+		}
+		if c.L[0].Z == 1 {
+			return where + ": rand.Intn panicked", "default-not-positive"
+		}
+		if len(c.L) == 2 && in.NoJitter && c.L[1].Z <= 0 {
+			return fmt.Sprintf("%s attempt %d: delay %d ns, not positive (min(cap, base*factor^n) is at least 1 ms for positive parameters)", where, attempt, c.L[1].Z), "default-not-positive"
 		}
 	}
 	return "", ""
